@@ -62,9 +62,9 @@ Qed.
    budget); at most 100 chunks *)
 Definition fmt_dom (k : cfg) (s0 : str) : bool :=
   let text := reply_text k s0 in
-  let budget := (allowed_length k - Z.of_N gen.T12.MORE_RESERVE)%Z in
-  nonempty s0 && allc no1 s0 && munged s0 && c_mores k && (1 <=? c_maximum k) &&
-  (25 <=? allowed_length k)%Z && (allowed_length k <=? line_room k)%Z &&
+  let budget := (allowed_length k - Z.of_N (more_reserve k))%Z in
+  words_ok k && nonempty s0 && allc no1 s0 && munged s0 && c_mores k && (1 <=? c_maximum k) &&
+  (4 + Z.of_N (more_reserve k) <=? allowed_length k)%Z && (allowed_length k <=? line_room k)%Z &&
   match parse text with Ok (_, mx) => (Z.of_N mx <=? budget)%Z | Raise _ => false end &&
   safe_cuts text budget &&
   match reply_chunks k s0 with Ok chunks => (length chunks <=? 100)%nat | Raise _ => true end.
@@ -85,7 +85,8 @@ Proof.
   unfold fmt_dom in Hdom. fold text in Hdom. cbv zeta in Hdom.
   repeat (apply andb_true_iff in Hdom as [Hdom ?]).
   rename H into Hcount, H0 into Hsafe, H1 into Hmx, H2 into Hroom, H3 into H25, H4 into Hmax, H5 into Hmores,
-         H6 into Hmu0, H7 into H10, Hdom into Hne0.
+         H6 into Hmu0, H7 into H10, H8 into Hne0.
+  assert (Hwords : words_ok k = true) by (unfold words_ok; rewrite Hdom, H9; reflexivity).
   apply Z.leb_le in Hroom, H25. apply N.leb_le in Hmax.
   destruct (more_sequence k s0 sent L number times Hr Hn Hl) as (chunks & Hc & Hlines).
   rewrite Hc in Hcount. apply Nat.leb_le in Hcount.
@@ -116,12 +117,12 @@ Proof.
         inversion Hnn' as [|? ? Hr Hn']; subst. inversion H1raw as [|? ? H1 H1']; subst.
         constructor; [exact (wrapped_facts r o Hro H1 Hr)|exact (IH Hn' H1')]. }
       split; [exact Hshape|]. split; [|exact Hv].
-      apply (annot_good k (allowed_length k - Z.of_N gen.T12.MORE_RESERVE)); [exact Hcount|lia|].
+      apply (annot_good k (allowed_length k - Z.of_N (more_reserve k))); [exact Hwords|exact Hcount|lia|].
       rewrite Forall_forall in *. intros c Hin. destruct (Hshape c Hin) as [A B]. specialize (Hf c Hin).
       cbv beta in Hf. rewrite <- utf8_len. repeat split; try assumption. lia. }
   destruct Hgoal as (Hch & Hgood & Hv).
   exists chunks. unfold lines. rewrite Hlines.
-  split; [apply annot_lines; exact Hch|]. split; [exact Hgood|]. split; [exact Hv|].
+  split; [apply (annot_lines k Hwords); exact Hch|]. split; [exact Hgood|]. split; [exact Hv|].
   split; [|split; [exists m; exact Hm|exact Hfull]].
   intros c Hin. split; [rewrite Forall_forall in Hch; exact (proj2 (Hch c Hin))|].
   rewrite <- Hv. apply in_concat_piece. apply in_map. exact Hin.
